@@ -97,10 +97,10 @@ def run(ck):
                 continue
             for how, ev, chain in w[fld]:
                 # re-executing a keyed store does not accumulate (map/set insert, emplace, operator[] ...); appending to a sequence does
-                ok = how in IDEMPOTENT_HOW or (how.startswith("call:") and ev["k"] == "call" and lib.is_assoc_call(ev) and
+                ok = how in IDEMPOTENT_HOW or (how.startswith("call:") and ev["k"] == "call" and lib.is_unique_assoc_call(ev) and
                                                how[5:] in ("emplace", "try_emplace", "emplace_hint", "insert_or_assign", "operator[]", "insert"))
-                if how == "call:insert" and ev["k"] == "call" and not lib.is_assoc_call(ev) and strip_tmpl(ev.get("callee") or "").startswith("std::"):
-                    ok = False      # insert into a sequence container accumulates
+                if how == "call:insert" and ev["k"] == "call" and not lib.is_unique_assoc_call(ev) and strip_tmpl(ev.get("callee") or "").startswith("std::"):
+                    ok = False      # insert into a sequence container or a multimap / multiset accumulates
                 ck.ob("C01-R2", "%s: %s %s" % (short, fld.replace(H, ""), how), ok, ev.loc, ev.func,
                       "idempotent under re-parse" if ok else
                       ("a stored value is replaced by one computed from itself (%s): every re-parse after a roll-back applies it again" % (ev.get("t") or "")[:60]
@@ -495,3 +495,12 @@ def run(ck):
             ok = ok and bool(rets) and all(cfg.ev_dominates(d, sg_ev, r) for r in rets)
             detail = "offset '%s' saved before growth; setg(%s) after it on every `return true` path" % (off[0]["var"], ", ".join(x.get("t") or "" for x in a))
         ck.ob("C01-R4", "ArrayStreamBuf::feed/rebase", ok, f.loc, f, detail)
+
+    # ---------------- facts shared with C17 ----------------
+    # Set-Cookie lines of a response are added to the jar without clearing it first (only the request's Cookie header is): a header block
+    # that is rolled back and parsed again adds the same cookies again, which is harmless exactly because the jar keeps one entry per
+    # (name, value)
+    ck.borrow("C17", ["C17-R3"], "C01-R8",
+              "re-parsing a rolled-back header block leaves the cookie jar as it was: CookieJar::add is a keep-first insert into containers "
+              "with unique keys (and the request's Cookie header clears the jar before it is read again)",
+              key_pred=lambda k: k.startswith("CookieJar::add/") or k.endswith("/unique-keys") or k.startswith("HeadersStep/"), min_instances=3)
